@@ -40,6 +40,7 @@ def run(ctx, rep):
     common.constants_check(db, rep, 'C01.constants', cfgname, layouts=True)
     periodic_gating(db, rep, lay, cfgname)
     periodic_args(db, rep, lay, cfgname)
+    global_values(db, rep, lay, cfgname)
 
     # ---------- (d) result discipline over Reach(verify) ----------
     R = db.reach([VERIFY])
@@ -343,3 +344,41 @@ def periodic_args(db, rep, lay, cfgname):
             rep.ob('C01.periodic-args', f'{lname}/{name}', sig == want,
                    f'{lname}: argument of {name} is computed from {sig}' + ('' if sig == want else f'; confirmed: {want}'), m.loc(t['line']), cfgname)
     rep.floor('C01.periodic-args', 'periodic column evaluations compared', n, 40)
+
+
+def global_values_signatures(db, lay):
+    out = {}
+    for lname, lself in sorted(lay.items()):
+        d = {}
+        for meth in ('eval_composition_polynomial', 'eval_oods_polynomial'):
+            m = common.layout_method(db, lself, meth, 'C01.global-values')
+            if m.has_mir and not m.compact:
+                for k, v in common.struct_signatures(db, m, {'Layout': lself}).items():
+                    if k.startswith('GlobalValues.'):
+                        d[f'{meth}/{k}'] = v
+        out[lname] = d
+    return out
+
+
+def global_values(db, rep, lay, cfgname):
+    """every field of the GlobalValues handed to the generated evaluator is computed from the same interaction element,
+    public-input value, constant and operations as confirmed on the pinned tree (tables/global_values.json): z and alpha
+    not swapped, each product/ratio in its own field."""
+    import json
+    import os
+    path = os.path.join(os.path.dirname(os.path.dirname(os.path.dirname(os.path.abspath(__file__)))), 'tables', 'global_values.json')
+    want = json.load(open(path))['layouts']
+    cur = global_values_signatures(db, lay)
+    n = 0
+    for lname in sorted(cur):
+        diffs = []
+        for k, sig in sorted(want.get(lname, {}).items()):
+            c = cur[lname].get(k)
+            if c is None:
+                continue
+            n += 1
+            if c != sig:
+                diffs.append(f'{k.split(".")[-1]}: {[x for x in c if x not in sig][:3]} instead of {[x for x in sig if x not in c][:3]}')
+        rep.ob('C01.global-values', lname, not diffs, f'{lname}: GlobalValues fields' + (' as confirmed' if not diffs else ' changed: ' + '; '.join(diffs[:3])),
+               f'crates/air/src/layout/{lname}/mod.rs', cfgname)
+    rep.floor('C01.global-values', 'GlobalValues fields compared', n, 100)
